@@ -642,6 +642,41 @@ def check_validator(ctx):
            'literal text is not `!`' if both else
            'the parse-failure guard no longer compares the literal rule '
            'text with `!`: a literal `!` rule is reported as unparseable')
+    # ... and that inference must be exact: "parsed to `!` although the text
+    # is not `!`" means "was rejected" only if `!` is the one spelling of
+    # always-deny.  The reducer table says whether it is: a reduction that
+    # hands one of its operands back unchanged (parentheses) gives every
+    # rule, `!` included, further spellings that parse without an error.
+    if both:
+        from . import c01
+        try:
+            _cl, _ps, table, effects, _m = c01.grammar_model(ctx)
+        except Exception as e:
+            raise AnalysisError('reducer table not readable for the '
+                                'validator\'s parse-failure rule: %s' % e)
+        ident = None
+        for r in table:
+            for kind, term in effects.get(r.method.name, ()):
+                if isinstance(term, tuple) and len(term) == 2 and \
+                        term[0] == 'P' and len(r.pattern) > 1 and \
+                        r.pattern[term[1]] == 'check' and kind == 'check':
+                    ident = ident or r
+        spelling = None
+        if ident is not None:
+            spelling = ''.join('!' if tk == 'check' else tk
+                               for tk in ident.pattern)
+        ctx.ob('C13.VALIDATOR', spelling is None, W, f.qual,
+               'parse failure inferred from the printed form',
+               '`!` is the only text that parses to always-deny' if
+               spelling is None else
+               'the validator takes "parsed to `!`, written otherwise" for '
+               'a parse failure, but the reducer %s hands its operand back '
+               'unchanged: the valid rule `%s` parses to `!` as well, is '
+               'reported as unparseable and fails the validation of a rule '
+               'set that has no undefined or cyclic reference' % (
+                   ident.method.name, spelling),
+               witness={'rule_text': spelling,
+                        'reducer': ident.method.qual if ident else None})
     ctx.count(len(t.paths))
     ctx.ob('C13.VALIDATOR', bad is None, W, f.qual,
            'validator status (%d paths)' % len(t.paths),
